@@ -119,6 +119,15 @@ AREAS = {
                 'unknown type infos with truncation and corruption, the non-verbose iterator on 0-8 bytes; both byte orders; result of the real function '
                 '(or PANIC) vs the checked Lean model',
     },
+    'zip': {
+        'shrink_sep': None,
+        'rule': 'extract_archives on generated zip archives of 0-5 (thorough 0-8) members: plain, nested, upper-case, hidden, with spaces / brackets / '
+                'non-ASCII, empty, and hostile names (../x, /etc/hostname, dir/../../out, .., x/../../y, drive and backslash forms), directory members, '
+                'the single-entry `data` case; patterns: none, **/*, *.dlt, **/*.dlt, dir/*, literal names, [ab]*, ../*, ?, an invalid one, in the '
+                '`archive/pattern` and `archive!/pattern` forms; a file exists next to the temporary directory (<tmp>/../evil.dlt). Observed: the reported '
+                'paths (canonicalised, relative to the temporary directory), every file found inside it (path, length, content hash) and the number of files '
+                'created or reported outside it; glob and enclosed_name verdicts are observed from the crates and handed to the model',
+    },
     'cvt': {
         'shrink_sep': ';', 'head_sep': None, 'needs_bin': True,
         'rule': 'the `adlt convert` binary built from the working tree on 1-3 (thorough 1-4) generated DLT files (1-24 / 1-60 messages in total over '
@@ -161,9 +170,9 @@ PROPS = {
         'n_quick': 4000, 'n_thorough': 150000,
     },
     'C20': {
-        'id': 'C20', 'area': 'chn',
-        'theorems': ['Props.C20_chain_refines', 'Props.C20_read_progress'],
-        'n_quick': 5000, 'n_thorough': 200000,
+        'id': 'C20', 'area': ['chn', 'zip'],
+        'theorems': ['Props.C20_chain_refines', 'Props.C20_read_progress', 'Props.C20_extract_confined', 'Props.C20_extract_sound', 'Props.C20_extract_exact'],
+        'n_quick': [5000, 1500], 'n_thorough': [200000, 60000],
     },
     'C04': {
         'id': 'C04', 'area': ['lm', 'lw'],
